@@ -489,12 +489,14 @@ PROPS.update({
                       {"name": "hyb-big", "args": ["cases=80", "maxops=25", "big=1"]},
                       {"name": "blk-overload", "domain": "blk", "args": ["cases=80", "maxops=60", "overload=1"]},
                       {"name": "blk-reinsertion", "domain": "blk", "args": ["cases=40", "maxops=120", "overload=1", "reins=1"]},
-                      {"name": "blk-blobreuse", "domain": "blk", "args": ["cases=2", "blobreuse=1"]}],
+                      {"name": "blk-blobreuse", "domain": "blk", "args": ["cases=2", "blobreuse=1"]},
+                      {"name": "hyb-inflight", "args": ["cases=12", "inflight=1"]}],
             "thorough": [{"name": "hyb-random", "args": ["cases=6000", "maxops=40"]},
                          {"name": "hyb-big", "args": ["cases=2000", "maxops=40", "big=1"]},
                          {"name": "blk-overload", "domain": "blk", "args": ["cases=2000", "maxops=80", "overload=1"]},
                          {"name": "blk-reinsertion", "domain": "blk", "args": ["cases=1000", "maxops=160", "overload=1", "reins=1"]},
-                         {"name": "blk-blobreuse", "domain": "blk", "args": ["cases=40", "blobreuse=1"]}],
+                         {"name": "blk-blobreuse", "domain": "blk", "args": ["cases=40", "blobreuse=1"]},
+                         {"name": "hyb-inflight", "args": ["cases=120", "inflight=1"]}],
         },
         "nontrivial": r"ret=v:\d+:\d+:(disk|memory)",
         "rule": HYB_RULE + "non-trivial = at least one lookup that hit; distinct = distinct (cfg, op sequence)",
